@@ -20,7 +20,8 @@ RULE = (
     "3 and dangling entries occur by construction. Oracle: BPSEQ numbering/letters/placeholders, symmetric matching, every BPSEQ pair a canonical "
     "input pair, every conflict-free canonical pair kept, per-strand dot-bracket == sequence and matching, every extended row balanced and of full "
     "length, rows of class X decode (as a multiset) to exactly the distinct input pairs of class X; all_dot_brackets members decode to the matching; "
-    "adapter.extract_secondary_structure_from_external returns the same texts. non-trivial = at least one entry between present nucleotides; "
+    "adapter.extract_secondary_structure_from_external returns the same texts. Plus, for corpus structures: the structure's own annotation as the list, "
+    "reversed, duplicated, with every pair also reversed, and extended by every single extra entry over the first/last nucleotides and an absent residue. non-trivial = at least one entry between present nucleotides; "
     "distinct = (host, gaps, entry sequence)."
 )
 ASSUMPTIONS = [
@@ -53,9 +54,53 @@ _hosts = {}
 
 def host(name):
     if name not in _hosts:
-        s = ac.build_structure(hosts()[name])
-        _hosts[name] = s
+        if name.startswith("file:"):
+            from mc.props import ann_families as fam
+
+            _hosts[name] = fam.corpus_structure(name[5:])
+        else:
+            _hosts[name] = ac.build_structure(hosts()[name])
     return _hosts[name]
+
+
+CORPUS_Q = ["1DFU_1_M-N.cif", "4WTI_1_T-P.cif", "1E7K_1_C.cif", "1A1T_1_B.cif", "1JJP.cif", "6FC9.cif"]
+CORPUS_T = CORPUS_Q + ["184D.cif", "4gqj-assembly1.cif", "1ATO.pdb", "6RS3.cif", "488d.pdb", "1ehz-assembly-1.cif", "4qln.cif"]
+_own = {}
+
+
+def own_entries(name):
+    """The structure's own annotation as entries over all of its nucleotides."""
+    if name not in _own:
+        from rnapolis.annotator import extract_base_interactions
+
+        s = host("file:" + name)
+        nts = [r for r in s.residues if r.is_nucleotide]
+        pos = {(r.chain, r.number, r.icode): k for k, r in enumerate(nts)}
+        ents = []
+        for bp in extract_base_interactions(s).basePairs:
+            a, b = pos.get((bp.nt1.chain, bp.nt1.number, bp.nt1.icode)), pos.get((bp.nt2.chain, bp.nt2.number, bp.nt2.icode))
+            if a is not None and b is not None:
+                ents.append([a, b, bp.lw.value, bp.saenger.value if bp.saenger else None])
+        _own[name] = (ents, len(nts))
+    return _own[name]
+
+
+def corpus_cases(tier):
+    for name in (CORPUS_Q if tier == "quick" else CORPUS_T):
+        ents, n = own_entries(name)
+        for gaps in (False, True):
+            base = dict(host="file:" + name, gaps=gaps, general=True)
+            yield dict(base, entries=ents)
+            yield dict(base, entries=ents + [[j, i, lw[0] + lw[2] + lw[1], sa] for i, j, lw, sa in ents])  # every pair also reversed
+            yield dict(base, entries=ents[::-1])
+            yield dict(base, entries=ents + ents)
+            # one extra entry from a small alphabet over the first / last nucleotides: conflicts, multiplets, dangling
+            idx = sorted(set(list(range(min(n, 4))) + list(range(max(0, n - 3), n))))
+            for i, j in itertools.permutations(idx + [-1], 2):
+                for lw in ("cWW", "tWW", "cWH"):
+                    yield dict(base, entries=ents + [[i, j, lw, None]])
+                    if tier != "quick":
+                        yield dict(base, entries=[[i, j, lw, None]] + ents)
 
 
 LWS_Q = ["cWW", "tWW", "cWH"]
@@ -80,7 +125,7 @@ def alphabet(hostname, tier):
 def BOUNDS(tier):
     q = tier == "quick"
     return dict(hosts=3, gaps=[False, True], alphabet={h: len(alphabet(h, tier)) for h in hosts()}, length=2 if q else 3,
-                length3="none" if q else "all triples whose entries touch at most 3 distinct residue pairs or repeat a class (multiplets, duplicates) - see cases()")
+                corpus_files=len(CORPUS_Q if q else CORPUS_T), length3="none" if q else "all triples whose entries touch at most 3 distinct residue pairs or repeat a class (multiplets, duplicates) - see cases()")
 
 
 def cases(tier):
@@ -109,7 +154,7 @@ def cases(tier):
 
 
 def families(tier):
-    return [("entry-sequences", lambda: cases(tier), 64)]
+    return [("entry-sequences", lambda: cases(tier), 64), ("corpus-own-annotation", lambda: corpus_cases(tier), 16)]
 
 
 def parse_strands(text):
@@ -124,11 +169,16 @@ def run_case(case):
 
     s = host(case["host"])
     nts_all = [r for r in s.residues if r.is_nucleotide]
-    nts = nts_all[:4]
+    general = case.get("general", False)
+    nts = nts_all if general else nts_all[:4]
+    NP = len(nts) if general else 4  # indices >= NP (or negative) name the absent residue
     absent = Residue(None, ResidueAuth("Z", 999, None, "G"))
 
+    def present(k):
+        return 0 <= k < NP
+
     def res(k):
-        return Residue(nts[k].label, nts[k].auth) if k < 4 else absent
+        return Residue(nts[k].label, nts[k].auth) if present(k) else absent
 
     bps = [BasePair(res(i), res(j), LeontisWesthof[lw], Saenger[sa] if sa else None) for i, j, lw, sa in case["entries"]]
     out = []
@@ -167,7 +217,7 @@ def run_case(case):
     canon = []
     distinct = {}
     for i, j, lw, sa in case["entries"]:
-        if i >= 4 or j >= 4:
+        if not present(i) or not present(j):
             continue
         a, b = index_of[key(i)], index_of[key(j)]
         if a > b:
@@ -250,6 +300,15 @@ def run_case(case):
             for p in dec:
                 got[(p[0], p[1], tag)] = got.get((p[0], p[1], tag), 0) + 1
         want = {k: 1 for k in distinct}
+        # the property does not say how a class is oriented when file order and identity order of the two residues disagree:
+        # for such pairs either orientation of the tag is accepted
+        byidx = {v: k for k, v in index_of.items()}
+        for (a, b, tag) in list(got):
+            ka, kb = byidx.get(a), byidx.get(b)
+            if ka is not None and kb is not None and (ka[0], ka[1], ka[2] or " ") > (kb[0], kb[1], kb[2] or " "):
+                rtag = tag[0] + tag[2] + tag[1]
+                if (a, b, tag) not in want and (a, b, rtag) in want and (a, b, rtag) not in got:
+                    got[(a, b, rtag)] = got.pop((a, b, tag))
         if got != want:
             lost = sorted(k for k in want if k not in got)
             dup = sorted(k for k, v in got.items() if v > 1)
@@ -269,5 +328,5 @@ def run_case(case):
     u = {}
     for v in out:
         u.setdefault(v["signature"], v)
-    present = [e for e in case["entries"] if e[0] < 4 and e[1] < 4]
-    return dict(nontrivial=bool(present), outcome="pairs=%d distinct=%d q=%d" % (len(pairs), min(len(distinct), 3), exp_seq.count("?")), violations=list(u.values()))
+    npresent = [e for e in case["entries"] if present(e[0]) and present(e[1])]
+    return dict(nontrivial=bool(npresent), outcome="pairs=%d distinct=%d q=%d" % (len(pairs), min(len(distinct), 3), exp_seq.count("?")), violations=list(u.values()))
